@@ -119,10 +119,18 @@ func suiteC09(r *Run) {
 		var crashed string
 		var hasDL bool
 		var lo, hi time.Duration
+		exp, inDomain, saturated := expectedTimeout(s)
+		// every third in-domain value: the request context is already bounded, later than the header asks
+		// (a server-wide limit set by middleware); the caller's earlier deadline is still the handler's
+		parent, pcancel := context.Background(), func() {}
+		bounded := inDomain && !saturated && exp < math.MaxInt64/4 && len(seen)%3 == 0
+		if bounded {
+			parent, pcancel = context.WithTimeout(parent, time.Duration(exp)+time.Hour)
+		}
 		func() {
 			defer recoverTo(&crashed)
 			t0 := time.Now()
-			ctx, cancel, err := httpgrpc.VerifContextFromHeaders(context.Background(), h)
+			ctx, cancel, err := httpgrpc.VerifContextFromHeaders(parent, h)
 			t1 := time.Now()
 			defer cancel()
 			if err != nil {
@@ -135,11 +143,10 @@ func suiteC09(r *Run) {
 				lo, hi = dl.Sub(t1), dl.Sub(t0)
 			}
 		}()
-		exp, inDomain, saturated := expectedTimeout(s)
-		_ = saturated
+		pcancel()
 		r.Eval("parse "+s, len(s) >= 2)
 		r.Count("server:" + map[bool]string{true: "in-domain", false: "malformed"}[inDomain])
-		c := map[string]interface{}{"op": "parse", "header": s, "header_hex": hexOrDash([]byte(s))}
+		c := map[string]interface{}{"op": "parse", "header": s, "header_hex": hexOrDash([]byte(s)), "request_context_already_bounded_later": bounded}
 		switch {
 		case crashed != "":
 			r.Op(sprintf("C09 parseobs %s crash", hexOrDash([]byte(s))), "observed")
@@ -267,6 +274,16 @@ func suiteC09(r *Run) {
 			return &Msg{}, nil
 		}}
 		hm := newHTTPMem(svr)
+		// a third of the calls: middleware in front of the server bounds every request, later than the caller does
+		mw := i%3 == 1 && !noDL && d < 1000*time.Hour
+		if mw {
+			inner := hm.tr.h
+			hm.tr.h = http.HandlerFunc(func(w http.ResponseWriter, req *http.Request) {
+				bctx, bcancel := context.WithTimeout(req.Context(), d+time.Hour)
+				defer bcancel()
+				inner.ServeHTTP(w, req.WithContext(bctx))
+			})
+		}
 		ctx := metadata.AppendToOutgoingContext(context.Background(), "k", "v")
 		t0 := time.Now()
 		var callerDL time.Time
@@ -280,7 +297,7 @@ func suiteC09(r *Run) {
 		r.Eval(fmt.Sprint("e2e ", noDL, int64(d)), true)
 		r.Count("e2e")
 		r.TracesOnImpl++
-		c := map[string]interface{}{"op": "e2e", "deadline_ns": int64(d), "no_deadline": noDL}
+		c := map[string]interface{}{"op": "e2e", "deadline_ns": int64(d), "no_deadline": noDL, "server_middleware_bounds_requests_later": mw}
 		if err != nil {
 			r.Violate("http/timeout/e2e-call-failed", "calls with a live deadline succeed", sprintf("Invoke with deadline %v failed: %v", d, err), c, canonErr(err))
 			continue
